@@ -545,10 +545,12 @@ Proof.
 Qed.
 
 Lemma v_step_env : forall st a, inv10 st ->
-  match a with AConvSet | AConvRemove | AConvAdd | AEnvUnc _ | AEnvConvWork _ | ABoot => True | _ => False end ->
+  match a with AMarkNew | AMarkEdit | AConvSet | AConvRemove | AConvAdd | AEnvUnc _ | AEnvConvWork _ | ABoot => True | _ => False end ->
   inv10 (stepm st a).
 Proof.
   intros st a I H. destruct a; try contradiction; simpl; try exact I.
+  - apply (inv10_same st); auto.
+  - apply inv10_start_converter. apply inv10_start_tagging. apply (inv10_same st); auto.
   - apply inv10_start_converter. apply inv10_start_tagging. exact I.
   - apply inv10_start_tagging. exact I.
   - apply (inv10_same st); auto.
@@ -781,7 +783,7 @@ Qed.
 
 Theorem step_inv10 : forall st a, inv13 junk st -> inv10 st -> inv10 (stepm st a).
 Proof.
-  intros st a I3 I. destruct a as [ks|v|v|v|v| |h|h| | | |n|b| | |k|k].
+  intros st a I3 I. destruct a as [ks|v|v|v|v| |h|h| | | | | |n|b| | |k|k].
   - apply v_step_import; auto.
   - apply v_step_view; auto.
   - apply v_step_read; auto.
@@ -790,6 +792,8 @@ Proof.
   - apply v_step_tagadd; auto.
   - apply v_step_tagdel; auto.
   - apply v_step_tagupd; auto.
+  - apply v_step_env; simpl; auto.
+  - apply v_step_env; simpl; auto.
   - apply v_step_env; simpl; auto.
   - apply v_step_env; simpl; auto.
   - apply v_step_env; simpl; auto.
@@ -839,7 +843,7 @@ Proof. intros n fs H f Hf. apply H. eapply in_skipn. eauto. Qed.
 
 Lemma step_files_ok : forall st a, inv10 st -> files_ok (indexes st) -> files_ok (indexes (stepm st a)).
 Proof.
-  intros st a I U. destruct a as [ks|v|v|v|v| |h|h| | | |n|b| | |k|k]; simpl; auto.
+  intros st a I U. destruct a as [ks|v|v|v|v| |h|h| | | | | |n|b| | |k|k]; simpl; auto.
   - destruct ks; auto. destruct (ascending _ _); auto. destruct (_ =? _)%nat; auto.
   - destruct (view_of v (views st)); auto.
   - destruct (view_of v (views st)) as [[|]|]; auto. destruct rf; auto.
@@ -847,6 +851,7 @@ Proof.
   - destruct (vtag_of v (vtags st)) as [[stamp b0]|]; auto.
   - rewrite indexes_start_tagging. exact U.
   - rewrite indexes_start_tagging. exact U.
+  - rewrite indexes_start_converter, indexes_start_tagging. exact U.
   - rewrite indexes_start_converter, indexes_start_tagging. exact U.
   - rewrite indexes_start_converter, indexes_start_tagging. exact U.
   - rewrite indexes_start_tagging. exact U.
@@ -936,7 +941,7 @@ Qed.
 Lemma view_step_stable : forall st a v s, rf = false -> view_of v (views st) = Some s -> a <> ARelease v ->
   view_of v (views (stepm st a)) = Some s.
 Proof.
-  intros st a v s Hrf H Ha. destruct a as [ks|w|w|w|w| |h|h| | | |n|b| | |k|k]; simpl; auto.
+  intros st a v s Hrf H Ha. destruct a as [ks|w|w|w|w| |h|h| | | | | |n|b| | |k|k]; simpl; auto.
   - destruct ks; auto. destruct (ascending _ _); auto. destruct (_ =? _)%nat; auto.
   - destruct (view_of w (views st)) eqn:E; auto. simpl. rewrite view_of_app, H. reflexivity.
   - destruct (view_of w (views st)) as [[|]|]; auto. rewrite Hrf. auto.
@@ -944,6 +949,7 @@ Proof.
   - destruct (vtag_of w (vtags st)) as [[stamp b0]|]; auto.
   - rewrite views_start_tagging. exact H.
   - rewrite views_start_tagging. exact H.
+  - rewrite views_start_converter, views_start_tagging. exact H.
   - rewrite views_start_converter, views_start_tagging. exact H.
   - rewrite views_start_converter, views_start_tagging. exact H.
   - rewrite views_start_tagging. exact H.
@@ -1021,7 +1027,7 @@ Lemma vtag_step_stable : forall st a v stamp b, rf = false ->
   vtag_of v (vtags st) = Some (stamp, b) -> a <> ARelease v ->
   vtag_of v (vtags (stepm st a)) = Some (stamp, if match a with APrefetch w => w =? v | _ => false end then true else b).
 Proof.
-  intros st a v stamp b Hrf H Ha. destruct a as [ks|w|w|w|w| |h|h| | | |n|b0| | |k|k]; simpl; auto.
+  intros st a v stamp b Hrf H Ha. destruct a as [ks|w|w|w|w| |h|h| | | | | |n|b0| | |k|k]; simpl; auto.
   - destruct ks; auto. destruct (ascending _ _); auto. destruct (_ =? _)%nat; auto.
   - destruct (view_of w (views st)) eqn:E; auto. simpl. rewrite vtag_of_app, H. reflexivity.
   - destruct (view_of w (views st)) as [[|]|]; auto. rewrite Hrf. auto.
@@ -1031,6 +1037,7 @@ Proof.
     + destruct (vtag_of w (vtags st)) as [[s0 b1]|]; auto. simpl. rewrite vtag_of_set_other; auto.
   - rewrite vtags_start_tagging. exact H.
   - rewrite vtags_start_tagging. exact H.
+  - rewrite vtags_start_converter, vtags_start_tagging. exact H.
   - rewrite vtags_start_converter, vtags_start_tagging. exact H.
   - rewrite vtags_start_converter, vtags_start_tagging. exact H.
   - rewrite vtags_start_tagging. exact H.
@@ -1147,7 +1154,7 @@ Ltac same_iq st :=
 
 Lemma step_caps_prefix : forall st a, caps_prefix st -> caps_prefix (stepq st a).
 Proof.
-  intros st a H. destruct a as [ks|v|v|v|v| |h|h| | | |n|b| | |k|k]; simpl.
+  intros st a H. destruct a as [ks|v|v|v|v| |h|h| | | | | |n|b| | |k|k]; simpl.
   - destruct ks as [|k0 ks']; auto. set (ks := k0 :: ks') in *. clearbody ks.
     destruct (ascending (next_cap st) ks); auto.
     destruct (Nat.eqb_spec (length (queue st ++ ks)) (length ks)).
@@ -1164,6 +1171,10 @@ Proof.
   - destruct (vtag_of v (vtags st)) as [[s0 b0]|]; auto; same_iq st.
   - destruct (iq_start_tagging st) as [A B]; apply (caps_prefix_same st); [rewrite A|rewrite B|]; auto.
   - match goal with |- caps_prefix (start_tagging ?s) => destruct (iq_start_tagging s) as [A B]; apply (caps_prefix_same st); [rewrite A|rewrite B|]; auto end.
+  - match goal with |- caps_prefix (start_converter (start_tagging ?s)) =>
+      destruct (iq_start_tagging s) as [A B]; destruct (iq_start_converter (start_tagging s)) as [A2 B2];
+      apply (caps_prefix_same st); [rewrite A2, A|rewrite B2, B|]; auto end.
+  - same_iq st.
   - match goal with |- caps_prefix (start_converter (start_tagging ?s)) =>
       destruct (iq_start_tagging s) as [A B]; destruct (iq_start_converter (start_tagging s)) as [A2 B2];
       apply (caps_prefix_same st); [rewrite A2, A|rewrite B2, B|]; auto end.
